@@ -68,6 +68,9 @@ pub open spec fn rm_pre<P: Prefix, T>(t: Seq<Node<P, T>>, live: ISet<int>, idx: 
     live.contains(idx)
         && (par.is_some() ==> live.contains(par.unwrap() as int) && is_child(t, par.unwrap() as int, par_right, idx))
         && (grp.is_some() ==> par.is_some() && live.contains(grp.unwrap() as int) && is_child(t, grp.unwrap() as int, grp_right, par.unwrap() as int))
+        // callers pass `None` only where there is no such node: idx is the root / par is the root
+        && (par.is_none() ==> idx == 0)
+        && (grp.is_none() && par.is_some() ==> par.unwrap() == 0)
 }
 
 /// consequences of rm_pre used throughout the proof of `_remove_node`
